@@ -37,12 +37,15 @@ def Node.genMemoryValue : Node → Option (MemLoc × AVal)
     if rs1.val == 2 then some (.stack imm.val, .rs rs2.val 0#32) else none
   | _ => none
 
+def isWordLoad (i : String) : Bool := i == "Lw" || i == "Lwu"
+
 def Node.genRegValue (n : Node) : Option (Reg × AVal) :=
   let item : Option (Reg × AVal) := match n with
     | .csr _ rd c _ _ => some (rd.val, .vcsr c.val)
     | .csri _ rd c _ _ => some (rd.val, .vcsr c.val)
     | .loadAddr _ rd name _ => some (rd.val, .addr name.val)
-    | .load _ rd rs1 imm _ => some (rd.val, .mr rs1.val imm.val)
+    -- only a word load yields the value stored in a (word) location
+    | .load i rd rs1 imm _ => if isWordLoad i.val then some (rd.val, .mr rs1.val imm.val) else none
     | .iarith i rd rs1 imm _ =>
       if rs1.val == 0 then
         if ["Addi", "Lui", "Addiw", "Xori", "Ori"].contains i.val then some (rd.val, .const imm.val)
@@ -74,11 +77,13 @@ def stackOffset (m : AMap Reg) : Option Word :=
 
 def ruleExpandAddressForLoad (n : Node) (out inn : AMap Reg) : AMap Reg :=
   match n with
-  | .load _ rd rs1 imm _ =>
-    match AMap.get inn rs1.val with
-    | some (.ors r off) => AMap.insert out rd.val (.omr r (off + imm.val))
-    | some (.addr l) => AMap.insert out rd.val (.mem l imm.val)
-    | _ => out
+  | .load i rd rs1 imm _ =>
+    if !isWordLoad i.val then out      -- lb/lbu/lh/lhu yield a part of the word
+    else
+      match AMap.get inn rs1.val with
+      | some (.ors r off) => AMap.insert out rd.val (.omr r (off + imm.val))
+      | some (.addr l) => AMap.insert out rd.val (.mem l imm.val)
+      | _ => out
   | _ => out
 
 /-- first half of `rule_value_from_stack`: a destination holding "value of CSR c" takes the value
@@ -251,7 +256,9 @@ def nodeMemOut (cn : CNode) (inReg : AMap Reg) (inMem : AMap MemLoc) (regOut : A
 def availNode (g : Cfg) (visited : List Nat) (i : Nat) : Cfg × Bool × Bool :=
   let cn := g.get i
   let vprevs := cn.prevs.filter visited.contains
-  if !cn.prevs.isEmpty && vprevs.isEmpty then (g, false, false)   -- wait for a visited predecessor
+  -- wait for a visited predecessor (an entry node does not wait: what holds after it does not come
+  -- from its predecessors)
+  if !cn.node.isAnyEntry && !cn.prevs.isEmpty && vprevs.isEmpty then (g, false, false)
   else
     let inReg := meetOver (vprevs.map fun p => (g.get p).regOut)
     let inMem := meetOver (vprevs.map fun p => (g.get p).memOut)
